@@ -305,7 +305,7 @@ def main(run):
     path_spellings(run, work)
     compiled_part(run, compiled, work)
     shutil.rmtree(work, ignore_errors=True)
-    return run.finish(floor=FLOOR if run.tier == "quick" else {k: v * 10 for k, v in FLOOR.items()})
+    return run.finish(floor=FLOOR if run.tier == "quick" else {k: (v * 10 if k != "path-spellings" else v) for k, v in FLOOR.items()})     # (the path-spelling set is fixed)
 
 
 def compiled_part(run, compiled, work):
